@@ -18,7 +18,11 @@ META = {
     "level": "exploration",
     "technique": "bounded-exhaustive input enumeration on AgentKey.sign_ssh_data/AgentSSH._send_message over a "
                  "scripted agent socket vs a reference request decoder",
-    "text": "algorithm in {None, the 14 names of Transport._key_info, 'rsa-sha2-384', '', an unrelated name} x key "
+    "text": "algorithm in {None, the 14 names of Transport._key_info, 'rsa-sha2-384', '', an unrelated name, 7 hand-picked "
+            "look-alikes} [+ dimension 'systematic look-alike names': for each of the 7 plain names the suffix "
+            "-cert-v01@openssh.com at every offset (start / middle), doubled, wrapped, followed or preceded by more "
+            "text, truncated / re-versioned / upper-cased, and the plain name padded / doubled / listed / cut - 296 "
+            "unknown names x data x {signature, failure reply} x key, all must get flags 0] x key "
             "blob in {RSA, RSA-cert, ECDSA-256, ECDSA-cert, Ed25519, Ed25519-cert, unknown type} x data in {empty, 1 byte, 300 bytes} x agent reply type (quick: 8 types in the full "
             "product and all 0..255 on a 7x3 slice; thorough: all 256 everywhere) x signature body {37 bytes, "
             "empty}; reply delivered whole, in every 2-fragment split and byte-by-byte (thorough: every "
@@ -59,6 +63,34 @@ LOOKALIKES = ["rsa-sha2-256@ssh.com", "rsa-sha2-512-cert-v00@openssh.com", "rsa-
               "x-rsa-sha2-512", "RSA-SHA2-256", "rsa-sha2-256 "]
 ALGOS = ([None] + sorted(Transport._key_info) +
          ["rsa-sha2-384", "", "hmac-sha2-256"] + LOOKALIKES)
+
+
+def systematic_lookalikes():
+    """Dimension 'names that merely CONTAIN a known name or the certificate suffix': for every plain base name of
+    Transport._key_info the certificate suffix is placed at every offset (start, every middle position), doubled,
+    followed / preceded by more text, given in a truncated / re-versioned / re-cased form; plus the bare suffix.
+    None of these is one of the four flagged names, so every one must get flags 0 (a lookup that normalises the
+    name first - replace / strip / lower / split / startswith / endswith / 'in' - maps some of them to 2 or 4)."""
+    bases = sorted(n for n in Transport._key_info if not n.endswith(CERT))
+    out = []
+    for b in bases:
+        out += [b[:i] + CERT + b[i:] for i in range(len(b))]            # suffix at the start / in the middle
+        out += [b + CERT + CERT, CERT + b + CERT, b + CERT + b]          # doubled / wrapped / followed by a name
+        out += [b + CERT + t for t in ("x", ".", " ", "\n", "\x00", ",ssh-rsa")]   # followed by more text
+        out += [t + b + CERT for t in (" ", "x", "\x00")]                # preceded by more text
+        out += [b + CERT[:-1], b + CERT[:9], b + CERT[:5], b + "@openssh.com", b + "-cert-v02@openssh.com",
+                b + CERT.upper(), b + CERT[1:], b + "-" + CERT]          # damaged / re-versioned suffix
+        out += [" " + b, b + "\n", b + "\x00", b + ",", b + "," + b, b + "@openssh.com", b.upper(), b[:-1], b + b]
+    out += [CERT, CERT + CERT, CERT[1:]]
+    seen, names = set(ALGOS), []
+    for n in out:
+        if n not in seen and not AP.expected_flags(n):
+            seen.add(n)
+            names.append(n)
+    return names
+
+
+SYS_LOOKALIKES = systematic_lookalikes()
 DATA = [("empty", b""), ("1-byte", core.filler(1, 451)), ("300-bytes", core.filler(300, 452))]
 SIGS = [("37-bytes", R.enc_string(b"rsa-sha2-256") + core.filler(17, 453)), ("empty", b"")]
 Q_TYPES = [14, 5, 0, 6, 12, 13, 15, 255]
@@ -207,6 +239,18 @@ def work(item, acc):
                 k.sign_ssh_data(data, algo)
                 acc.sample({"key": keykind, "algorithm": algo, "data": data.hex(), "reply_type": 14,
                             "request_sent_tail": bytes(conn.sent)[-16:].hex(), "flags_expected": 4})
+    elif kind == "lookalike":
+        # systematic look-alike names x data x {signature reply, failure reply}: flags must be 0 for all of them
+        _, tier, ki = item
+        keykind, blob = KEYS[ki]
+        sk, sig = SIGS[0]
+        for algo, (dk, data), rtype in itertools.product(SYS_LOOKALIKES, DATA, (14, 5)):
+            acc.ev()
+            acc.count("systematic_lookalike_names_cases")
+            acc.nt((keykind, algo, dk, rtype, sk, "whole"))
+            res = run_case(keykind, blob, algo, data, rtype, sig, None)
+            if res:
+                report(acc, res, keykind, algo, dk, rtype, sk, None)
     elif kind == "types":
         _, tier, ki, di = item
         keykind, blob = KEYS[ki]
@@ -249,8 +293,10 @@ def main(tier):
         PID, tier, "exploration",
         "case = (key blob kind, algorithm argument, data, agent reply type, signature body, reply "
         "fragmentation); every case is one real AgentKey.sign_ssh_data call over a scripted socket, the bytes "
-        "written are decoded by an independent parser; three enumerations: full product with whole-reply "
-        "delivery, all 256 reply types on a slice, all fragmentations on a slice; nontrivial = distinct cases "
+        "written are decoded by an independent parser; four enumerations: full product with whole-reply "
+        "delivery, the systematic look-alike algorithm names (contain a known name / the certificate suffix "
+        "without being one of the four flagged names) x data x 2 reply types, all 256 reply types on a slice, "
+        "all fragmentations on a slice; nontrivial = distinct cases "
         "(every case sends a request and consumes a reply; all are distinct by construction)",
         ["certificate blobs: request may carry the certificate or the embedded plain key",
          "agent replies are complete frames (no EOF / truncation)",
@@ -259,6 +305,7 @@ def main(tier):
     types = Q_TYPES if tier == "quick" else list(range(256))
     for ki in range(len(KEYS)):
         items.append(("product", tier, ki, types))
+        items.append(("lookalike", tier, ki))
         if tier == "quick":
             for di in range(len(DATA)):
                 items.append(("types", tier, ki, di))
@@ -272,7 +319,7 @@ def main(tier):
             for t0 in range(0, 256, 32):
                 items.append(("product", tier, ki, list(range(t0, t0 + 32))))
     ck.merge(core.pmap(items, work))
-    ck.extra["bound"] = {"algorithms": ALGOS, "keys": [k for k, _ in KEYS], "data": [d for d, _ in DATA],
+    ck.extra["bound"] = {"algorithms": ALGOS, "systematic_lookalike_names": len(SYS_LOOKALIKES), "keys": [k for k, _ in KEYS], "data": [d for d, _ in DATA],
                          "reply_types_full_product": "0..255" if tier == "thorough" else Q_TYPES,
                          "signature_bodies": [s for s, _ in SIGS]}
     return ck.finish()
